@@ -21,6 +21,12 @@ class Unsupported(Exception):
     pass
 
 
+class DeadPath(Exception):
+    """every alternative of the current block instance violates a run-time check
+    (reported as obligations); the instance has no continuation"""
+    pass
+
+
 # ------------------------------------------------------------------ values
 
 class Long(object):
@@ -33,11 +39,36 @@ class Long(object):
         self.len = len_
 
 
+class VarS(object):
+    """content of a string whose bytes are base[0:len] with a symbolic length
+    (a nondeterministic input and its open-ended suffixes)"""
+    __slots__ = ('base', 'len')
+
+    def __init__(self, base, len_):
+        self.base = base
+        self.len = len_
+
+
 class Str(object):
-    __slots__ = ('alts',)  # [(guard, tuple of BV8 terms | Long)]
+    __slots__ = ('alts', '_bylen', '_eqmemo')  # alts: [(guard, tuple of BV8 terms | Long | VarS)]
 
     def __init__(self, alts):
         self.alts = alts
+        self._bylen = None
+        self._eqmemo = None
+
+    def bylen(self):
+        """alternatives of concrete length indexed by length; (dict, [non-concrete alts])"""
+        if self._bylen is None:
+            d = {}
+            other = []
+            for a in self.alts:
+                if isinstance(a[1], tuple):
+                    d.setdefault(len(a[1]), []).append(a)
+                else:
+                    other.append(a)
+            self._bylen = (d, other)
+        return self._bylen
 
     @staticmethod
     def lit(bs):
@@ -50,6 +81,8 @@ class Str(object):
 def showbytes(c):
     if isinstance(c, Long):
         return '<long%d>' % c.id
+    if isinstance(c, VarS):
+        return '<var:%d>' % len(c.base)
     return ''.join(chr(b.val) if b.op == 'const' and 32 <= b.val < 127 else '?' for b in c)
 
 
@@ -138,6 +171,8 @@ class Obj(object):
 def content_key(c):
     if isinstance(c, Long):
         return ('L', c.id)
+    if isinstance(c, VarS):
+        return ('V', tuple(b.id for b in c.base), c.len.id)
     return tuple(b.id for b in c)
 
 
@@ -477,6 +512,8 @@ class Executor(object):
         self.nstage = 0
         self.trace_alloc = False
         self.pool_gets = 0
+        self.name_guards = 6
+        self.split_max = 128
 
     # ---------------------------------------------------------- types
 
@@ -583,7 +620,7 @@ class Executor(object):
                 raise Unsupported('load through cast ' + str(cast))
             res.append((g, v))
         if not res:
-            raise Unsupported('load through nil only')
+            raise DeadPath()
         return restrict(merge_many(res), guard)
 
     def store(self, ptr, val, guard, ins=None):
@@ -629,9 +666,60 @@ class Executor(object):
     def str_eq(self, a, b):
         if isinstance(a, RopeStr) or isinstance(b, RopeStr):
             return self.rope_eq(a, b)
+        # comparison with a literal: memoised on the other operand, only alternatives of equal length matter
+        for x, y in ((a, b), (b, a)):
+            if len(y.alts) == 1 and y.alts[0][0] is TRUE and isinstance(y.alts[0][1], tuple) and len(x.alts) > 2:
+                lit = y.alts[0][1]
+                if all(t.op == 'const' for t in lit):
+                    key = tuple(t.val for t in lit)
+                    if x._eqmemo is None:
+                        x._eqmemo = {}
+                    r = x._eqmemo.get(key)
+                    if r is None:
+                        d, other = x.bylen()
+                        sub = Str(d.get(len(lit), []) + other)
+                        r = self.str_eq_raw(sub, y) if sub.alts else FALSE
+                        x._eqmemo[key] = r
+                    return r
+        return self.str_eq_raw(a, b)
+
+    def str_eq_raw(self, a, b):
         res = []
         for ga, ca in a.alts:
             for gb, cb in b.alts:
+                if isinstance(ca, VarS) or isinstance(cb, VarS):
+                    if isinstance(ca, VarS) and isinstance(cb, VarS):
+                        if ca.base == cb.base and ca.len is cb.len:
+                            res.append(And(ga, gb))
+                            continue
+                        g = And(ga, gb, Eq(ca.len, cb.len))
+                        if g is FALSE:
+                            continue
+                        eqs = [g]
+                        for k in range(min(len(ca.base), len(cb.base))):
+                            eqs.append(Or(Not(bvcmp('slt', bv(k, 64), ca.len)), Eq(ca.base[k], cb.base[k])))
+                        if len(ca.base) != len(cb.base):
+                            eqs.append(bvcmp('sle', ca.len, bv(min(len(ca.base), len(cb.base)), 64)))
+                        res.append(And(*eqs))
+                        continue
+                    if isinstance(cb, VarS):
+                        ca, cb = cb, ca
+                    if isinstance(cb, Long) or len(cb) > len(ca.base):
+                        continue
+                    g = And(ga, gb, Eq(ca.len, bv(len(cb), 64)))
+                    if g is FALSE:
+                        continue
+                    eqs = [g]
+                    dead = False
+                    for x, y in zip(ca.base, cb):
+                        e = Eq(x, y)
+                        if e is FALSE:
+                            dead = True
+                            break
+                        eqs.append(e)
+                    if not dead:
+                        res.append(And(*eqs))
+                    continue
                 la = isinstance(ca, Long)
                 lb = isinstance(cb, Long)
                 if la or lb:
@@ -663,7 +751,7 @@ class Executor(object):
             return self.rope_len(s.segs)
         cs = []
         for g, c in s.alts:
-            if isinstance(c, Long):
+            if isinstance(c, (Long, VarS)):
                 if len(s.alts) == 1:
                     return c.len
                 cs.append((g, c.len))
@@ -833,6 +921,8 @@ class Executor(object):
 
     def run_function(self, fn, args, guard):
         act = Activation(fn)
+        if self.name_guards and TM.gsize(guard) > self.name_guards:
+            guard = TM.Named(guard)
         self.funcs_encoded[fn.name] += 1
         for p, a in zip(fn.params, args):
             act.env[p['n']] = a
@@ -843,6 +933,8 @@ class Executor(object):
         finally:
             self.stack.pop()
         if not act.returns:
+            if self.stack:
+                raise DeadPath()
             return None
         return merge_many(act.returns)
 
@@ -869,7 +961,23 @@ class Executor(object):
                 self.assume(Not(g))
                 act.pending.pop(L.header)
                 break
-            self.exec_items(act, L.items)
+            groups = self.group_instances(act, L, insts) if self.split_max else None
+            if groups is not None and len(groups) > 1:
+                # explicit-state execution on the small-set loop variables: one pass of the body per
+                # concrete value tuple of the integer header phis (keeps their correlation exact)
+                act.pending.pop(L.header)
+                nxt = []
+                for ginsts in groups:
+                    act.pending[L.header] = ginsts
+                    self.exec_items(act, L.items)
+                    nxt.extend(act.pending.pop(L.header, []))
+                if nxt:
+                    act.pending[L.header] = nxt
+                self.stats['split_groups'] += len(groups)
+            else:
+                if groups is not None and len(groups) == 1:
+                    act.pending[L.header] = groups[0]
+                self.exec_items(act, L.items)
             k += 1
         self.stats['loop_iters'] += k
         snaps = act.loopsnaps.pop(L.header)
@@ -878,6 +986,72 @@ class Executor(object):
                 gv = [(g, s[nme]) for g, s in snaps if nme in s]
                 if gv:
                     act.env[nme] = merge_many(gv) if len(gv) > 1 else gv[0][1]
+
+    def group_instances(self, act, L, insts):
+        """group the header's incoming edge instances by the concrete values of the
+        integer phis (small sets are expanded); None if not applicable / too many"""
+        sp = getattr(L, 'split_phis', None)
+        if sp is None:
+            # integer header phis that (directly or through other phis) index a slice/array
+            # inside the loop: table lookups need exact, correlated indices; indices into
+            # strings do not (string values carry their alternatives)
+            used = set()
+            phidefs = {}
+            own = [b for b in L.blocks if act.fn.loopof.get(b) is L]
+            for b in own:
+                for ins in act.fn.blocks[b]['instrs']:
+                    if ins['op'] in ('indexaddr', 'index') and not self.is_string(ins['x'].get('t', 'int')):
+                        o = ins.get('index')
+                        if o and o.get('k') == 'local':
+                            used.add(o['n'])
+                    elif ins['op'] == 'phi':
+                        phidefs[ins['n']] = [e['n'] for e in ins['edges'] if e.get('k') == 'local']
+            changed = True
+            while changed:
+                changed = False
+                for p, srcs in phidefs.items():
+                    if p in used:
+                        for q in srcs:
+                            if q in phidefs and q not in used:
+                                used.add(q)
+                                changed = True
+            sp = L.split_phis = [ph for ph in act.fn.phis[L.header] if self.width(ph['t']) is not None and ph['n'] in used]
+        phis = sp
+        if not phis:
+            return None
+        names = [ph['n'] for ph in phis]
+        groups = {}
+        order = []
+        n = 0
+        for g, pv in insts:
+            if g is FALSE:
+                continue
+            combos = [(g, ())]
+            for nm in names:
+                v = pv[nm]
+                cs = cases(v) if isinstance(v, T) else None
+                if cs is None:
+                    return None
+                nxt = []
+                for g0, tup in combos:
+                    for gc, val in cs:
+                        gg = And(g0, gc)
+                        if gg is not FALSE:
+                            nxt.append((gg, tup + (val,)))
+                combos = nxt
+                if len(combos) > self.split_max:
+                    return None
+            for gg, tup in combos:
+                npv = dict(pv)
+                for nm, val in zip(names, tup):
+                    npv[nm] = const(pv[nm].sort, val)
+                if tup not in groups:
+                    groups[tup] = []
+                    order.append(tup)
+                    if len(order) > self.split_max:
+                        return None
+                groups[tup].append((gg, npv))
+        return [groups[t] for t in order]
 
     def exec_block(self, act, b):
         insts = act.pending.pop(b, None)
@@ -889,6 +1063,8 @@ class Executor(object):
         guard = Or(*[i[0] for i in insts])
         if guard is FALSE:
             return
+        if self.name_guards and TM.gsize(guard) > self.name_guards:
+            guard = TM.Named(guard)
         fn = act.fn
         phis = fn.phis[b]
         if phis:
@@ -908,7 +1084,11 @@ class Executor(object):
             if h is None:
                 raise Unsupported('instruction %s in %s' % (op, fn.name))
             self.stats['instrs'] += 1
-            r = h(act, ins)
+            try:
+                r = h(act, ins)
+            except DeadPath:
+                self.stats['dead_paths'] += 1
+                return
             if 'n' in ins:
                 act.env[ins['n']] = r
 
@@ -1055,7 +1235,7 @@ class Executor(object):
                 alts = []
                 for ga, ca in x.alts:
                     for gb, cb in y.alts:
-                        if isinstance(ca, Long) or isinstance(cb, Long):
+                        if isinstance(ca, (Long, VarS)) or isinstance(cb, (Long, VarS)):
                             raise Unsupported('concatenation of unbounded string')
                         alts.append((And(ga, gb), ca + cb))
                 return Str(fuse_alts(alts, str_key))
@@ -1270,8 +1450,7 @@ class Executor(object):
                         continue
                     out.append((gg, o, p + (i,), c))
         if not out:
-            # every alternative is out of range: value is irrelevant, path is dead
-            return Ptr([(TRUE, None, (), None)])
+            raise DeadPath()
         return Ptr(fuse_alts(out, ptr_key))
 
     def i_index(self, act, ins):
@@ -1299,6 +1478,18 @@ class Executor(object):
         for g, c in x.alts:
             if isinstance(c, Long):
                 raise Unsupported('index into unbounded string')
+            if isinstance(c, VarS):
+                for gi, i in ics:
+                    i = signed(i, idx.sort)
+                    gg = And(g, gi)
+                    if gg is FALSE:
+                        continue
+                    if i < 0 or i >= len(c.base):
+                        self.oblige('bounds', And(act.guard, gg), 'string index %d out of range' % i, ins)
+                        continue
+                    self.oblige('bounds', And(act.guard, gg, Not(bvcmp('slt', bv(i, 64), c.len))), 'string index %d out of range (symbolic length)' % i, ins)
+                    res.append((gg, c.base[i]))
+                continue
             for gi, i in ics:
                 i = signed(i, idx.sort)
                 gg = And(g, gi)
@@ -1309,7 +1500,7 @@ class Executor(object):
                     continue
                 res.append((gg, c[i]))
         if not res:
-            return bv(0, 8)
+            raise DeadPath()
         # fuse identical bytes
         fused = {}
         order = []
@@ -1337,6 +1528,22 @@ class Executor(object):
             for g, c in x.alts:
                 if isinstance(c, Long):
                     raise Unsupported('slice of unbounded string')
+                if isinstance(c, VarS):
+                    for gl, l in (lo or [(TRUE, 0)]):
+                        for gh, h in (hi or [(TRUE, None)]):
+                            gg = And(g, gl, gh)
+                            if gg is FALSE:
+                                continue
+                            if l < 0 or l > len(c.base) or (h is not None and (h < l or h > len(c.base))):
+                                self.oblige('bounds', And(act.guard, gg), 'string slice [%s:%s] out of range' % (l, h), ins)
+                                continue
+                            if h is None:
+                                self.oblige('bounds', And(act.guard, gg, Not(bvcmp('sle', bv(l, 64), c.len))), 'string slice [%d:] out of range (symbolic length)' % l, ins)
+                                alts.append((gg, VarS(c.base[l:], bvop('bvsub', c.len, bv(l, 64))) if l else c))
+                            else:
+                                self.oblige('bounds', And(act.guard, gg, Not(bvcmp('sle', bv(h, 64), c.len))), 'string slice [%d:%d] out of range (symbolic length)' % (l, h), ins)
+                                alts.append((gg, c.base[l:h]))
+                    continue
                 for gl, l in (lo or [(TRUE, 0)]):
                     for gh, h in (hi or [(TRUE, len(c))]):
                         gg = And(g, gl, gh)
@@ -1347,7 +1554,7 @@ class Executor(object):
                             continue
                         alts.append((gg, c[l:h]))
             if not alts:
-                return Str.lit(b'')
+                raise DeadPath()
             return Str(fuse_alts(alts, str_key))
         if isinstance(x, Ptr):
             # slicing *array
@@ -1386,7 +1593,7 @@ class Executor(object):
                                 raise Unsupported('reslicing a rope buffer')
                             alts.append((gg, o, off + l, h - l, m - l))
             if not alts:
-                return Slc([(TRUE, None, 0, 0, 0)])
+                raise DeadPath()
             return Slc(fuse_alts(alts, slc_key))
         raise Unsupported('slice of %r' % type(x))
 
@@ -1497,7 +1704,7 @@ class Executor(object):
             rope = o.val
             if isinstance(src, Str):
                 for g, c in src.alts:
-                    if isinstance(c, Long):
+                    if isinstance(c, (Long, VarS)):
                         raise Unsupported('append of unbounded string')
                     gg = And(guard, g)
                     if gg is not FALSE and len(c):
@@ -1516,7 +1723,7 @@ class Executor(object):
         if isinstance(src, Str):
             salts = []
             for g, c in src.alts:
-                if isinstance(c, Long):
+                if isinstance(c, (Long, VarS)):
                     raise Unsupported('append of unbounded string')
                 salts.append((g, list(c)))
         elif isinstance(src, Slc):
@@ -1571,6 +1778,10 @@ def stub_nondet_string(ex, args, guard, ins):
         bs = tuple(var('%s_b%d' % (nm, i), 8) for i in range(n))
         ex.assume(bvcmp('ule', L, bv(n, 64)))
         ex.inputs[nm] = {'kind': 'string', 'max': n}
+        if getattr(ex, 'varstrings', True):
+            # one alternative: bytes b0..b(N-1) with a symbolic length that is a small set over L
+            ln = from_cases([(Eq(L, bv(k, 64)), k) for k in range(n + 1)], 64)
+            return Str([(TRUE, VarS(bs, ln))])
         return Str([(Eq(L, bv(k, 64)), bs[:k]) for k in range(n + 1)])
     K = -n  # strings of any length; the first K bytes are explicit
     bs = tuple(var('%s_b%d' % (nm, i), 8) for i in range(K))
@@ -1827,10 +2038,16 @@ def stub_indexbytestring(ex, args, guard, ins):
             raise Unsupported('IndexByte on unbounded string')
         none = []
         cs = []
-        for k, b in enumerate(content):
-            hit = Eq(b, c)
-            cs.append((And(*(none + [hit])), k))
-            none.append(Not(hit))
+        if isinstance(content, VarS):
+            for k, b in enumerate(content.base):
+                hit = And(Eq(b, c), bvcmp('slt', bv(k, 64), content.len))
+                cs.append((And(*(none + [hit])), k))
+                none.append(Not(hit))
+        else:
+            for k, b in enumerate(content):
+                hit = Eq(b, c)
+                cs.append((And(*(none + [hit])), k))
+                none.append(Not(hit))
         cs.append((And(*none) if none else TRUE, (1 << 64) - 1))
         res.append((g, from_cases(cs, 64)))
     return merge_many(res)
